@@ -338,7 +338,7 @@ func derivesFromRoot(v ssa.Value, root ssa.Value, d int) bool {
 
 func checkC14(w *World, c *Check, tier string) {
 	c.Exhaustive = true
-	c.Explanation = "Decides the insensitivity clauses structurally, over every use of a parsed URL's components in the closure of IRI.Equals: scheme, host and path of the two operands meet only in strings.EqualFold (the path after path cleaning) or in comparisons against constants — never in a case-sensitive == / != against each other; the scheme comparison is reachable only on the true side of the caller's checkScheme flag; fragment and raw query are never read (queries are compared only through the parsed, order-insensitive Query() multimap); the string fast path compares with EqualFold after stripping the fragment (and the scheme when not asked to check it); IRIs.Contains decides through IRI.Equals for every element. A case-sensitive comparison, an unconditional scheme test or a fragment read breaks the stated equivalence for a whole class of IRIs. NOT decided: that the relation is an equivalence (symmetry fails on the pinned tree for repeated query keys — a one-directional multiset comparison no structural rule separates from a correct one without false alarms) and agreement of the fast path with the URL path on all inputs."
+	c.Explanation = "Decides the insensitivity clauses structurally, over every use of a parsed URL's components in the closure of IRI.Equals: scheme, host and path of the two operands meet only in strings.EqualFold (the path after path cleaning) or in comparisons against constants — never in a case-sensitive == / != against each other; the scheme comparison is reachable only on the true side of the caller's checkScheme flag; fragment and raw query are never read (queries are compared only through the parsed, order-insensitive Query() multimap); the string fast path compares with EqualFold after stripping the fragment (and the scheme when not asked to check it); IRIs.Contains decides through IRI.Equals for every element. A case-sensitive comparison, an unconditional scheme test or a fragment read breaks the stated equivalence for a whole class of IRIs. (sym/refl) irisEqual and IRI.Equals are turned into decision trees over per-operand atoms and symmetric relational atoms: every pair of leaves consistent after exchanging the operands returns the same result, every leaf consistent with identical operands returns true; (components) host with port, path and parsed query of both operands are compared; (query) the values of a repeated key are compared completely as multisets, never by a one-directional lookup nest (that defect of the pinned tree was repaired, 7a585d0); (fastpath) the fast path compares the operands cut at the fragment/scheme delimiter only. NOT decided: transitivity, and agreement of the fast path with the URL path on all inputs beyond the purity condition."
 	c.RuleText = "one obligation per read of a url.URL component in the closure of IRI.Equals, plus guard/route obligations"
 	c.Trusted = []string{"go/ssa", "net/url field semantics", "strings.EqualFold is case-insensitive equality"}
 	c.floor("C14.fold", 4)
@@ -893,7 +893,7 @@ func schemeGuard(f *ssa.Function, fa *ssa.FieldAddr) string {
 func checkC17(w *World, c *Check, tier string) {
 	c.Level = "proof"
 	c.Exhaustive = true
-	c.Explanation = "Proves the comparator has the key form less(a,b) = key(a) ≻ key(b): (form) the value returned on the both-non-nil path is time.Time.After(k1, k2) (or Before with swapped operands) where k1 depends only on the first parameter and k2 only on the second; (iso) the two key expressions are the same expression up to renaming the parameter; (max) the key is ite(After(updated, published), updated, published), i.e. the later of the two instants; (nil) by abstract interpretation, (nil, object) is true, (object, nil) and (nil, nil) are false, and a conversion error yields false. A comparator of this form is a strict weak order whenever ≻ is one on the keys (irreflexive: key(a) ≻ key(a) is false; asymmetric and transitive because After is; incomparability is equality of instants, which is transitive), with nil as the top key — so sorting yields newest-first. Assumes time.Time.After is a strict weak order on instants."
+	c.Explanation = "Proves the comparator has the key form less(a,b) = key(a) ≻ key(b): (form) the value returned on the both-non-nil path is time.Time.After(k1, k2) (or Before with swapped operands) where k1 depends only on the first parameter and k2 only on the second; (iso) the two key expressions are the same expression up to renaming the parameter; (max) the key is ite(After(updated, published), updated, published), i.e. the later of the two instants; (nil) by abstract interpretation, (nil, object) is true, (object, nil) and (nil, nil) are false, and a conversion error yields false. (paths) every other return depends only on nil/conversion-error tests of the operands. A comparator of this form is a strict weak order whenever ≻ is one on the keys (irreflexive: key(a) ≻ key(a) is false; asymmetric and transitive because After is; incomparability is equality of instants, which is transitive), with nil as the top key — so sorting yields newest-first. Assumes time.Time.After is a strict weak order on instants."
 	c.RuleText = "obligations: form, per-parameter dependence, isomorphism of the two key slices, max-shape of the key, 4 nil-cases; exhaustive for the single comparator"
 	c.Trusted = []string{"go/ssa", "time.Time.After is a strict weak order on instants", "apcheck abstract interpreter (nil cases)"}
 	f := w.Func("ItemOrderTimestamp")
